@@ -154,8 +154,22 @@ class Builder:
             self.emit('}')
             return evs
         if k == 'heading':
-            self.emit(r.choice(['\\section{', '\\subsection*{']))
-            evs = self.seq(depth + 2, allow_side=False)
+            # the heading handler expands its argument once for inspection: also with a language
+            # switch inside (multi-language mode) the rotation must not be disturbed
+            self.emit(r.choice(['\\section{', '\\subsection*{', '\\title{']))
+            if self.ml and r.random() < .6:
+                new = r.choice(['en', 'de', 'ru'])
+                old = self.lang
+                evs = [self.formula()]
+                self.emit(' \\foreignlanguage{%s}{' % BABEL[new])
+                self.lang = new
+                evs += self.seq(depth + 2, allow_side=False)
+                self.emit('} ')
+                self.lang = old
+                evs += [self.formula()]
+                self.ctx.add('heading_lang')
+            else:
+                evs = self.seq(depth + 2, allow_side=False)
             self.emit('}')
             for e in evs:
                 e['in_heading'] = True
@@ -298,7 +312,7 @@ class C10(core.Check):
     def quotas(self, tier):
         q = {'formulas_judged': 20000, 'with_punctuation': 3000, 'second_copies': 300,
              'ml_docs_with_two_languages': 200}
-        for c in ('plain', 'unkarg', 'declarg', 'userarg', 'twice', 'item', 'footnote', 'group', 'cell', 'heading',
+        for c in ('plain', 'unkarg', 'declarg', 'userarg', 'twice', 'item', 'footnote', 'group', 'cell', 'heading', 'heading_lang',
                   'caption', 'lang_foreign', 'lang_select', 'lang_env'):
             q['ctx_' + c] = 100
         return q
